@@ -99,6 +99,12 @@ func runC14(c *fw.Ctx) {
 		}
 	}
 	o.Whitelist = dedupInts(o.Whitelist)
+	// a node may be configured to assert all registered invariants every n-th block in its end blocker
+	// (`--inv-check-period`); an invariant that gives a false verdict on a sound state then halts it
+	if r.Chance(50) {
+		o.AppOpts = map[string]interface{}{"inv-check-period": uint(r.Range(1, 3))}
+		c.Count("histories_with_inv_check_period", 1)
+	}
 	e := NewEnv(c, o)
 	defer e.L.Cleanup()
 	e.Snap = true
